@@ -66,7 +66,12 @@ def one_trace(rng, tid, prop):
             keys = [[rng.randint(0, hi) for _ in range(nc)] for _ in range(nr)]
             oned = nr == 1 and rng.random() < 0.5
             g, r = rng.random() < 0.5, rng.random() < 0.5
-            rec.do("index", [], keep=False, fn="glexsort", p={"keys": keys, "graded": g, "reverse": r, "oned": oned},
+            given = []
+            if rng.random() < 0.3:
+                import numpy
+                arr = numpy.array(keys, dtype=rng.choice(["int64", "uint32"]))
+                given = [rec.new(arr[0] if oned else arr)]        # the caller's own array must come back untouched (C17)
+            rec.do("index", given, keep=False, fn="glexsort", p={"keys": keys, "graded": g, "reverse": r, "oned": oned},
                    keys=keys, graded=g, reverse=r)
         elif fam in ("glexindex", "monomial"):
             q, s, t, qlow, qup = index_params(rng)
